@@ -332,6 +332,8 @@ where
                 // make a reduced Mehrotra correction in the first iteration
                 // to accommodate badly centred starting points
                 let m = if iter > 1 {T::one()} else {α};
+                #[cfg(feature = "verif-hooks")]
+                crate::verif_hooks::observer::scalar("mehrotra_m", m);
 
                 // calculate the combined step and length
                 // --------------
